@@ -6,11 +6,11 @@
   correspondence of harness component `linerec` (which also compares each real function with a Go regexp
   transcription of the specification's sentence).  Helper lemmas: GM/Proof/LineRec.lean.
 
-  Proved here: thematic break, closing code fence, ATX opening sequence (+ no panic), the list-content
-  offset rule (`calcListOffset`), tabs-vs-spaces (`tabs_eq_spaces`).
-  NOT proved in Lean (covered by the exhaustive correspondence and the regexp oracles only): `setextBar_iff`,
-  `parseListItem_iff`, `fence_open_iff`, the ATX content range, and the padding half of `tabs_eq_spaces`
-  (that position − padding denotes the same column for both spellings).
+  Proved here (all characterisations are for every line): thematic break, setext underline, list markers
+  (bullet / ordered incl. the 1–9 digit rule and "space, tab or end of line after the marker", with the match
+  array), the list-content offset rule (`calcListOffset`), opening and closing code fence, ATX opening sequence
+  (+ no panic) and ATX content range, tabs-vs-spaces (`tabs_eq_spaces`, incl. the padding half).
+  Open: nothing of this part's plan; the block driver that calls the recognisers is not modelled here.
 -/
 import GM.Model.LineRec
 import GM.Proof.LineRec
@@ -86,13 +86,112 @@ theorem indentPosition_fails_iff (bs : Bytes) (c width : Nat) :
 /-- `tabs_eq_spaces_partial`. Two white-space prefixes `p`, `q` (any mix of spaces and tabs) that reach the same
     column from start column `c`, in front of the same rest `r`: `IndentWidth` reports the same width (and the
     byte positions `|p|`, `|q|`), and for every width `IndentPosition` succeeds on one iff it succeeds on the
-    other. (Not proved: that on success position − padding denotes the same column.) -/
+    other. (The padding half is `tabs_eq_spaces` below.) -/
 theorem tabs_eq_spaces_partial (c : Nat) (p q r : Bytes) (hp : p.all isIndent = true) (hq : q.all isIndent = true)
     (hr : ∀ b ∈ r.head?, isIndent b = false) (hw : (indentWidth p c).1 = (indentWidth q c).1) :
     indentWidth (p ++ r) c = ((indentWidth p c).1, p.length) ∧
     indentWidth (q ++ r) c = ((indentWidth p c).1, q.length) ∧
     ∀ width, ((indentPosition (p ++ r) c width).1 < 0 ↔ (indentPosition (q ++ r) c width).1 < 0) :=
   tabs_eq_spaces c p q r hp hq hr hw
+
+
+/-- `setextBar_iff` (spec 4.3: "a setext heading underline is a sequence of `=` characters or a sequence of `-`
+    characters, with no more than 3 spaces of indentation and any number of trailing spaces or tabs"). For every
+    line: `matchesSetextHeadingBar` answers `c` iff the line is `k ≤ 3` spaces, then `n ≥ 1` copies of `c ∈ {=, -}`,
+    then only white space (`util.IsSpace`). (A TAB in the indentation is not accepted: only spaces are trimmed.) -/
+theorem setextBar_iff (line : Bytes) (c : UInt8) :
+    setextBar line = .ok (some c) ↔
+      ∃ k n ws, k ≤ 3 ∧ 1 ≤ n ∧ (c = 61 ∨ c = 45) ∧ ws.all isSpace = true ∧
+        line = List.replicate k 32 ++ (List.replicate n c ++ ws) :=
+  Proof.LineRec.setextBar_iff line c
+
+/-- `parseListItem_iff`, bullet half (spec 5.2: "a bullet list marker is a `-`, `+`, or `*` character"; the marker
+    is followed by at least one space or tab, or by the end of the line; at most 3 spaces of indentation).
+    Soundness and completeness: the type is `bullet` iff the line has exactly that shape. `restOK rest` = `rest` is
+    empty or starts with LF, space or tab. -/
+theorem parseListItem_bullet_iff (line : Bytes) :
+    (parseListItem line).2 = .bullet ↔
+      ∃ k c rest, k ≤ 3 ∧ isBullet c = true ∧ line = List.replicate k 32 ++ c :: rest ∧ restOK rest = true :=
+  Proof.LineRec.parseListItem_bullet_iff line
+
+/-- `parseListItem_iff`, ordered half (spec 5.2: "an ordered list marker is a sequence of 1–9 arabic digits,
+    followed by either a `.` character or a `)` character"). The type is `ordered` iff the line is `k ≤ 3` spaces,
+    1 to 9 digits, `.` or `)`, and then nothing / LF / space / tab. Ten digits are never a list item. -/
+theorem parseListItem_ordered_iff (line : Bytes) :
+    (parseListItem line).2 = .ordered ↔
+      ∃ k ds d rest, k ≤ 3 ∧ 1 ≤ ds.length ∧ ds.length ≤ 9 ∧ ds.all isNumeric = true ∧ (d = 46 ∨ d = 41) ∧
+        line = List.replicate k 32 ++ (ds ++ d :: rest) ∧ restOK rest = true :=
+  Proof.LineRec.parseListItem_ordered_iff line
+
+/-- the match array of an accepted bullet item: indentation `[0, k)`, marker `[k, k+1)`, rest from `k+1`
+    (`-1` when the line ends after the marker) -/
+theorem parseListItem_bullet_match (k : Nat) (c : UInt8) (rest : Bytes) (hk : k ≤ 3) (hb : isBullet c = true)
+    (hr : restOK rest = true) :
+    let m := (parseListItem (List.replicate k 32 ++ c :: rest)).1
+    m.r0 = 0 ∧ m.r1 = k ∧ m.r2 = k ∧ m.r3 = (k + 1 : Nat) ∧ m.r4 = (if rest = [] then -1 else ((k + 1 : Nat) : Int)) :=
+  Proof.LineRec.parseListItem_bullet_match k c rest hk hb hr
+
+/-- the match array of an accepted ordered item: marker = digits and delimiter `[k, k + |ds| + 1)` -/
+theorem parseListItem_ordered_match (k : Nat) (ds : Bytes) (d : UInt8) (rest : Bytes) (hk : k ≤ 3)
+    (h1 : 1 ≤ ds.length) (h9 : ds.length ≤ 9) (hds : ds.all isNumeric = true) (hd : d = 46 ∨ d = 41)
+    (hr : restOK rest = true) :
+    let m := (parseListItem (List.replicate k 32 ++ (ds ++ d :: rest))).1
+    m.r0 = 0 ∧ m.r1 = k ∧ m.r2 = k ∧ m.r3 = (k + ds.length + 1 : Nat) ∧
+      m.r4 = (if rest = [] then -1 else ((k + ds.length + 1 : Nat) : Int)) :=
+  Proof.LineRec.parseListItem_ordered_match k ds d rest hk h1 h9 hds hd hr
+
+/-- `fence_open_iff` (spec 4.5: "a code fence is a sequence of at least three consecutive backtick characters or
+    tildes … The line with the opening code fence may optionally contain some text following the code fence … If
+    the info string comes after a backtick fence, it may not contain any backtick characters"). With `pos` the
+    block offset (≤ 3 columns by the openBlocks gate): a fence `(c, n)` is opened iff `c` is a backtick or a
+    tilde, the line from `pos` on is a maximal run of `n ≥ 3` copies of `c`, and — for backticks — no backtick
+    occurs in the rest of the line. -/
+theorem fence_open_iff (line : Bytes) (pos : Nat) (c : UInt8) (n : Nat) :
+    (∃ info, fenceOpen line pos = .ok (some { char := c, indent := pos, length := n, info := info })) ↔
+      (c = 96 ∨ c = 126) ∧ 3 ≤ n ∧
+      ∃ rest, line.drop pos = List.replicate n c ++ rest ∧ rest.head? ≠ some c ∧ (c = 96 → (96 : UInt8) ∉ rest) :=
+  fenceOpen_iff line pos c n
+
+/-- `atx_content_range` (spec 4.2: "The raw contents of the heading are stripped of leading and trailing space or
+    tabs … The optional closing sequence of `#`s must be preceded by spaces or tabs and may be followed by spaces
+    or tabs only"). For EVERY indentation `pre` (the bytes before the block offset), level `n`, non-empty white
+    space `s1` after the opening sequence, text `text ++ [d]` starting with a non-space, `h` hashes after `d`, and
+    trailing white space `trail` (which contains the line's LF):
+    * `d` not a space (and not `#`): the hashes are glued to the text, nothing is stripped — the heading's segment
+      is exactly `text ++ [d] ++ #^h`;
+    * `d` a space (then `h ≥ 1`): `#^h` is the closing sequence and is stripped — the segment is `text ++ [d]`
+      (the spaces in front of the closing sequence stay in the segment; the inline phase trims them).
+    In both cases it starts right after `s1`. -/
+theorem atx_content_range (pre s1 text trail : Bytes) (d : UInt8) (n h : Nat)
+    (hn1 : 1 ≤ n) (hn6 : n ≤ 6) (hs1 : s1 ≠ []) (hs1s : s1.all isSpace = true)
+    (hhead : ∀ x ∈ (text ++ [d]).head?, isSpace x = false)
+    (hd35 : d ≠ 35) (hdh : isSpace d = true → 1 ≤ h) (htrail : trail.all isSpace = true) :
+    atxOpen (pre ++ (List.replicate n 35 ++ (s1 ++ (text ++ d :: (List.replicate h 35 ++ trail))))) pre.length =
+      .ok (some { level := n,
+                  content := some (pre.length + n + s1.length,
+                    pre.length + n + s1.length + text.length + 1 + (if isSpace d = true then 0 else h)) }) :=
+  Proof.LineRec.atx_content_range pre s1 text trail d n h hn1 hn6 hs1 hs1s hhead hd35 hdh htrail
+
+/-- `indentPosition_column`. When the line is indented by at least `width > 0` columns, `IndentPosition` returns
+    `(pos, padding)` such that the first `pos` bytes are spaces/tabs whose width from column `c` is exactly
+    `width + padding`, with `padding ≤ 3`: position minus padding is exactly column `c + width`. -/
+theorem indentPosition_column (bs : Bytes) (c width : Nat) (hw : 0 < width) (hok : width ≤ (indentWidth bs c).1) :
+    ∃ m pad : Nat, indentPosition bs c width = ((m : Int), (pad : Int)) ∧ m ≤ bs.length ∧
+      (bs.take m).all isIndent = true ∧ (indentWidth (bs.take m) c).1 = width + pad ∧ pad ≤ 3 :=
+  Proof.LineRec.indentPosition_column bs c width hw hok
+
+/-- `tabs_eq_spaces` (padding half). For two white-space prefixes reaching the same column in front of the same
+    rest, and every width they cover: both `IndentPosition` calls succeed, and in both results the consumed
+    prefix minus the padding is exactly `width` columns — the two spellings leave the children at the same column. -/
+theorem tabs_eq_spaces (c : Nat) (p q r : Bytes) (hp : p.all isIndent = true) (hq : q.all isIndent = true)
+    (hr : ∀ b ∈ r.head?, isIndent b = false) (hw : (indentWidth p c).1 = (indentWidth q c).1)
+    (width : Nat) (hpos : 0 < width) (hle : width ≤ (indentWidth p c).1) :
+    ∃ m₁ pad₁ m₂ pad₂ : Nat,
+      indentPosition (p ++ r) c width = ((m₁ : Int), (pad₁ : Int)) ∧
+      indentPosition (q ++ r) c width = ((m₂ : Int), (pad₂ : Int)) ∧
+      (indentWidth ((p ++ r).take m₁) c).1 = width + pad₁ ∧ (indentWidth ((q ++ r).take m₂) c).1 = width + pad₂ ∧
+      pad₁ ≤ 3 ∧ pad₂ ≤ 3 :=
+  tabs_eq_spaces_padding c p q r hp hq hr hw width hpos hle
 
 /-! ### non-vacuity and tests (byte literals: 32 ' ', 9 TAB, 10 LF, 35 '#', 42 '*', 45 '-', 96 '`', 97 'a') -/
 
@@ -111,11 +210,24 @@ example : calcListOffset [45, 32, 32, 32, 32, 32, 97] 1 = .ok 1 := by decide
 example : (indentWidth [9] 0).1 = (indentWidth [32, 32, 32, 32] 0).1 := by decide
 example : (indentWidth [32, 9] 2).1 = (indentWidth [32, 32] 2).1 := by decide
 example : [(9 : UInt8)].all isIndent = true ∧ (∀ b ∈ [(97 : UInt8)].head?, isIndent b = false) := by decide
--- setext / list marker / fence open: evaluated, not characterised in Lean (see the header)
+-- setext / list marker / fence open / ATX content: instances of the characterisations above, evaluated
 example : setextBar [32, 61, 61, 32, 10] = .ok (some 61) := by decide
 example : (parseListItem [49, 50, 51, 52, 53, 54, 55, 56, 57, 48, 46, 32, 97]).2 = .notList := by decide  -- ten digits
 example : (parseListItem [49, 50, 51, 52, 53, 54, 55, 56, 57, 46, 32, 97]).2 = .ordered := by decide       -- nine digits
 example : listOpen [50, 46, 32, 97, 10] true = none ∧ (listOpen [49, 46, 32, 97, 10] true).isSome = true := by decide
 example : fenceOpen [96, 96, 96, 32, 97, 96, 10] 0 = .ok none := by decide   -- backtick in a backtick info string
+
+-- atx_content_range instances: "  ## a b ##  \n" (closing sequence stripped), "# a#\n" (glued hashes kept)
+example : atxOpen [32, 32, 35, 35, 32, 97, 32, 98, 32, 35, 35, 32, 32, 10] 2 =
+    .ok (some { level := 2, content := some (5, 9) }) := by decide
+example : atxOpen [35, 32, 97, 35, 10] 0 = .ok (some { level := 1, content := some (2, 4) }) := by decide
+-- hypotheses of atx_content_range are satisfiable (pre = "  ", s1 = " ", text = "a ", d = 'b' / d = ' ')
+example : ([32] : Bytes).all isSpace = true ∧ (∀ x ∈ ([97, 32] ++ [(98 : UInt8)]).head?, isSpace x = false) ∧
+    (98 : UInt8) ≠ 35 ∧ (isSpace 98 = true → 1 ≤ 0) := by decide
+example : restOK [] = true ∧ restOK [10] = true ∧ restOK [97] = false ∧ isBullet 43 = true := by decide
+example : (parseListItem [32, 45, 9, 97]).2 = .bullet ∧ (parseListItem [45, 97]).2 = .notList := by decide
+-- tabs_eq_spaces: IndentPosition("\t\tx", col 0, width 6) stops inside the 2nd tab with padding 2;
+-- the spelling with 8 spaces stops after 6 spaces with padding 0: both at column 6
+example : indentPosition [9, 9, 120] 0 6 = (2, 2) ∧ indentPosition [32, 32, 32, 32, 32, 32, 32, 32, 120] 0 6 = (6, 0) := by decide
 
 end GM.Props.C02a
